@@ -7,6 +7,9 @@ import (
 	"fmt"
 	"os"
 
+	"strings"
+
+	"verif/harness/gw"
 	"verif/harness/lib"
 )
 
@@ -33,23 +36,28 @@ func main() {
 	out := fs.String("out", "", "result JSON")
 	replay := fs.String("replay", "", "replay file")
 	work := fs.String("work", "", "scratch directory")
-	gw := fs.String("gw", "", "versitygw binary")
+	gwBin := fs.String("gw", "", "versitygw binary")
 	fs.Parse(os.Args[2:])
 	def, ok := checks[name]
 	if !ok {
 		fmt.Fprintln(os.Stderr, "unknown check", name)
 		os.Exit(2)
 	}
-	a := lib.Args{Tier: *tier, Seed: *seed, Driver: &lib.Driver{Path: *driver}, Out: *out, Replay: *replay, Work: *work, GwBin: *gw}
+	a := lib.Args{Tier: *tier, Seed: *seed, Driver: &lib.Driver{Path: *driver}, Out: *out, Replay: *replay, Work: *work, GwBin: *gwBin}
 	res := lib.NewResult(def.prop, name, def.rule)
 	for _, f := range def.fns {
 		if err := f(a, res); err != nil {
 			fmt.Fprintln(os.Stderr, "harness error:", err)
 			res.Note("harness error: %v", err)
+			res.EnvFault = gw.EnvFault()
+			if res.EnvFault == "" && strings.Contains(err.Error(), "no space left on device") {
+				res.EnvFault = err.Error()
+			}
 			res.Write(*out)
 			os.Exit(3)
 		}
 	}
+	res.EnvFault = gw.EnvFault()
 	if err := res.Write(*out); err != nil {
 		fmt.Fprintln(os.Stderr, err)
 		os.Exit(3)
